@@ -8,7 +8,7 @@ root = os.path.dirname(os.path.dirname(os.path.abspath(__file__)))
 dst = os.path.join(root, "seeded", mid)
 os.makedirs(dst, exist_ok=True)
 for f in os.listdir(src):
-    if f in ("patch.diff", "demo.cpp", "build.sh", "README.md") or f.endswith((".h", ".hpp")):
+    if os.path.isfile(os.path.join(src, f)) and not f.startswith("_") and (f in ("patch.diff", "build.sh", "README.md") or f.endswith((".h", ".hpp", ".cpp"))):
         shutil.copy(os.path.join(src, f), os.path.join(dst, f))
 head = subprocess.run(["git", "-C", "/repo", "rev-parse", "--short", "HEAD"], capture_output=True, text=True).stdout.strip()
 confirmed = {"applies_to": "/repo HEAD " + head}
@@ -18,7 +18,7 @@ if log and os.path.exists(log):
         if line.startswith("EVAL ctest#1:"): confirmed["ctest_with_change"] = line.split(":", 1)[1].strip() + " (twice; tools/eval_mutant.sh)"
         if line.startswith("EVAL demo with change:"): confirmed["demo_with_change"] = line.split(":", 1)[1].strip()
         if line.startswith("EVAL demo without change:"): confirmed["demo_without_change"] = line.split(":", 1)[1].strip()
-meta = {"id": mid, "breaks_property": prop, "author": "independent sub-agent, round 2 (given only the property text and a scratch worktree)",
+meta = {"id": mid, "breaks_property": prop, "author": "independent sub-agent, round %s (given only the property text%s and a scratch worktree)" % (os.environ.get("ROUND", "2"), ", the list of changes already proposed" if os.environ.get("ROUND", "2") != "2" else ""),
         "change": change, "needs_to_manifest": needs, "confirmed": confirmed,
         "checks_run": "tools/eval_mutant.sh <dir> " + " ".join(sorted(json.loads(det).keys())), "detected_by": json.loads(det)}
 json.dump(meta, open(os.path.join(dst, "meta.json"), "w"), indent=1)
